@@ -1,4 +1,5 @@
 import PoseVerif.Driver.Codec
+import PoseVerif.Model.Helpers
 import PoseVerif.Model.Cache
 import PoseVerif.Model.Concurrent
 import PoseVerif.Model.JS
@@ -218,6 +219,18 @@ def handle (j : Json) : R Json := do
       | .error _ => pure none
     let res := if (j.getObjValAs? String "mode").toOption == some "remove" then removeComponents comps request points else getComponents comps request points
     match res with
+    | some (cs, ixs) => pure (Json.mkObj [("ok", Json.bool true), ("components", Json.arr (cs.toArray.map compToJson)), ("indexes", Json.arr (ixs.toArray.map natJ))])
+    | none => pure failJ
+  | "reduce_holistic" =>
+    let comps ← (← (← j.getObjVal? "components").getArr?).toList.mapM compOfJson
+    let hexList (v : Json) : R (List String) := do
+      (← v.getArr?).toList.mapM fun x => do
+        match (fromHex (← x.getStr?)).bind stringOfBytes? with
+        | some s => pure s
+        | none => throw "bad name"
+    let ignore ← hexList (← j.getObjVal? "ignore")
+    let contours ← hexList (← j.getObjVal? "contours")
+    match reduceHolistic ignore contours comps with
     | some (cs, ixs) => pure (Json.mkObj [("ok", Json.bool true), ("components", Json.arr (cs.toArray.map compToJson)), ("indexes", Json.arr (ixs.toArray.map natJ))])
     | none => pure failJ
   | "frame_id" =>
